@@ -4,7 +4,12 @@ import codec
 TRUSTED_BASE = ['model of radmsg2buf/buf2radmsg/tlv2buf in coq/Model/Packet.v; MD5 oracle (Coq) / OCaml Digest (driver); HMAC-MD5 defined in Gallina per RFC 2104']
 ASSUMPTIONS = ['md5 output has 16 bytes', 'messages handed to the serializer have attribute values <= 253 bytes and 16-byte Message-Authenticators (established by the parser and the pipeline stages)']
 RULE = 'serialization of random messages over all codes incl. sizes around 4096 and parse of valid/mutated packets; distinct = distinct implementation observation lines'
-def generate(rng, tier):
+def generate_core(rng, tier):
     n = 30000 if tier == 'thorough' else 1200
     ops = codec.ser_ops(rng, n) + codec.parse_ops(rng, n // 2)
     return batch(ops, 'ser', 100)
+
+def generate(rng, tier):
+    """the component-level cases, then the clause seen through the whole request/reply pipeline"""
+    import pipeline, focus
+    return generate_core(rng, tier) + focus.rwout80_cases(rng, 300 if tier == 'thorough' else 24) + pipeline.guided_cases(rng, 300 if tier == 'thorough' else 20, __import__('C10').dup_history, 'dup') + pipeline.guided_cases(rng, 300 if tier == 'thorough' else 20, pipeline.exchange_history, 'xchg')
